@@ -149,6 +149,23 @@ Fixpoint event_resps (evs : list event) : list bytes :=
 Definition is_tick (e : event) : bool := match e with ETick => true | _ => false end.
 Definition is_fire (a : action) : bool := match a with AFire => true | _ => false end.
 
+(* vocabulary of the schedule-level theorems: the chunks of every selection
+   (no truncation at the end of the input), selections without an end,
+   heartbeat and firing counts *)
+Definition ev_chunks (e : event) : list chunk :=
+  match e with
+  | EResp j => resp_chunks_gen j
+  | EBad => []
+  | ETick => tick_chunks_gen
+  | EEnd => end_chunks_gen
+  end.
+Definition emit_all (evs : list event) : list chunk := flat_map ev_chunks evs.
+Definition obs_chunk (o : obs) : list chunk := match o with OChunk c => [c] | _ => [] end.
+Definition no_end (evs : list event) : bool := forallb (fun e => negb (is_end e)) evs.
+Definition b2n (b : bool) : nat := if b then 1%nat else 0%nat.
+Definition ticks (evs : list event) : nat := length (filter is_tick evs).
+Definition fires (acts : list action) : nat := length (filter is_fire acts).
+
 (* ================================================================ spec == *)
 (* RFC 2046 section 5.1.1, boundary "graphql":
      dash-boundary   := "--" boundary
